@@ -52,7 +52,10 @@ class Kinds:
             if isinstance(st, ast.Assign) and isinstance(st.targets[0], ast.Subscript) and isinstance(st.value, ast.Call) \
                     and fn_name(st.value) == "arange":
                 idx = st.targets[0].slice
-                if self.of_expr(f, idx) == ORDER:
+                a0 = argn(st.value, 0)
+                # the same inversion as the loop above, written as a scatter: r[order] = arange(len(order))
+                if self.of_expr(f, idx) == ORDER or (isinstance(a0, ast.Call) and fn_name(a0) == "len" and a0.args and U(a0.args[0]) == U(idx)
+                                                      and len(st.value.args) == 1):
                     out.add(U(st.targets[0].value))
         return out
 
@@ -71,6 +74,11 @@ class Kinds:
                 if isinstance(d, tuple):
                     continue
                 ks.add(self.of_expr(f, d, depth + 1))
+            # a loop variable over a list of index lists is an index list of the same kind (the statement form of the
+            # flattening comprehension below)
+            for x in walk_shallow(f.node):
+                if isinstance(x, ast.For) and isinstance(x.target, ast.Name) and x.target.id == e.id:
+                    ks.add(self.of_expr(f, x.iter, depth + 1))
             # lists grown by append / extend
             for x in walk_shallow(f.node):
                 if isinstance(x, ast.Call) and fn_name(x) in ("append", "extend") and U(x.func.value) == e.id and x.args:
@@ -341,7 +349,8 @@ def s4(ctx, rep):
     p = cfg.path([s for s, l in cfg.succ[pr[0]]], cfg.exit, deleted=rec, skip_labels=("exc",)) if pr else None
     rep.put(bool(rec) and p is None, "S4", "must_follow", "_Bracket.on_result: the trial is recorded at the rung on every path", b, None, "")
     # each trial enters a rung once
-    ok = any(n.kind == "test" and f"trial_id in {recv}" in U(n.ast) for n in cfg.nodes)
+    from .common import dom_guard
+    ok = bool(rec) and all(any(a[0] == "in" and a[1] == "trial_id" and a[2] == recv and a[3] is False for a in dom_guard(ctx, b, r_)) for r_ in rec)
     rep.put(ok, "S4", "guarded_by", "_Bracket.on_result: a trial already recorded at a rung is skipped", b, None, "")
     # guard table of the rung walk (found thin by the generic mutation audit)
     from .common import require_guard
